@@ -241,10 +241,14 @@ def register_harness(res):
 def c18(res):
     refobjects(res)
     register_harness(res)
+    import fam_graph
     if res.tier == "thorough":
-        import fam_graph
         fam_graph.example_single_copy(res, clients=(2, 3))
         fam_graph.example_abd(res)
+        fam_graph.example_paxos(res)
+    else:
+        # the shipped Paxos example (register clients + record hooks + tester state in every state) against Paxos.tla
+        fam_graph.example_paxos(res, clients=(1, 2))
     res.rule = ("(a) reference objects: every (object state reached by a prefix, op, ret) within bounds: invoke / is_valid_step / "
                 "is_valid_history vs RefObjects.tla; (b) RegisterActor clients + record hooks around a chaos server (answers each "
                 "request at most once, any order, any value, or never) on all network kinds: every reachable state of the real "
